@@ -5,6 +5,7 @@ PROP = dict(
     lean_module="AbraProofs.Properties.C08",
     required_theorems=["C08_deepcopy_total", "C08_deepcopy_iso", "C08_deepcopy_sharing", "C08_spawn_copies_one_graph",
                        "C08_deepcopy_equal", "C08_deepcopy_preserves_original", "C08_deepcopy_disjoint",
+                       "C08_deepcopy_fresh", "C08_spawn_fresh", "C08_stale_table_counterexample",
                        "C08_deepcopy_channel_shared", "C08_threads_isolated", "C08_spawn_isolated",
                        "C08_deepcopy_prerepair_cyclic"],
     harness_bin="c08",
@@ -23,7 +24,10 @@ PROP = dict(
          "two-node cycle; one Box twice in an array; cycles ROOTED AT AN ARRAY: array->struct->same array, array->variant->same "
          "array, array->array->variant->first array; a variant-rooted cycle; arrays that are EMPTY at the spawn - directly, in a "
          "struct, a tuple, an enum payload, the environment of two closures, or popped down to nothing - and grown on both sides "
-         "afterwards): the task mutates through one alias and observes through the other, so does "
+         "afterwards); plus (quick 60 / thorough 750) HISTORIES of copies on one thread: the spawner reads heap messages "
+         "it wrote itself (array / struct holding the array), mutates in between, spawns tasks capturing those same objects, in "
+         "random order (a read first, a spawn after it); then every task, every snapshot and the originals are mutated and all "
+         "are printed - nothing may survive from one copy to the next). In the alias shapes the task mutates through one alias and observes through the other, so does "
          "the spawner on its originals. Model cases: `heapcopy <value>` - Lean deepCopy renders the copy as the task saw it and "
          "owns all of it - and `heapalias <captures with labels> | <ops>` - spawnCopy (one map), the same mutations and "
          "observations, every printed line; distinct = distinct values; non-trivial = the value contains a heap object",
